@@ -417,7 +417,7 @@ func genC06(r *rng.R, id int) *c06case {
 	def := lim{65535, 65535, 0, 0}
 	sdef := lim{65535, 65535, 2097152, 512}
 	cs.Client, cs.Server = def, sdef
-	switch id % 8 {
+	switch id % 9 {
 	case 0:
 		cs.Class = "symmetric-default"
 	case 1: // client buffers smaller than the server's
@@ -442,6 +442,18 @@ func genC06(r *rng.R, id int) *c06case {
 	case 6: // zero = unlimited on the server
 		cs.Class = "server-unlimited"
 		cs.Server.MaxMsg, cs.Server.MaxChunks = uint32(r.Pick(0, 0, 100000)), uint32(r.Pick(0, 0, 4))
+	case 8: // outside the property's range: a buffer below the protocol minimum must make the handshake fail
+		cs.Class = "below-minimum"
+		switch r.Intn(4) {
+		case 0:
+			cs.Client.Recv = uint32(r.Pick(100, 4096, 8191)) // >= 28 so that the ACK frame itself fits (a local buffer < 8 panics in Receive: C05_small_buffer_panics)
+		case 1:
+			cs.Client.Send = uint32(r.Pick(0, 100, 4096, 8191))
+		case 2:
+			cs.Server.Recv = uint32(r.Pick(100, 4096, 8191))
+		default:
+			cs.Server.Send = uint32(r.Pick(100, 4096, 8191))
+		}
 	default:
 		cs.Class = "mixed"
 		cs.Client = lim{pickBuf(r), pickBuf(r), uint32(r.Pick(0, 0, 30000, 100000)), uint32(r.Pick(0, 0, 2, 4))}
